@@ -70,7 +70,11 @@ LONG = [
     ("old(a, b) register a; char *b; { return a; } static z; const w = 1;", "kr.c"),
     ("typedef int T; T f(T a) { T b = a; return b; }", "p.c"),
     ("int T; int g(int c) { T = c; return T * 2; }", "q.c"),
+    ("char *a1 = \"one\" \"two\" \"three\" \"four\"; void *w1 = L\"w\" L\"x\" L\"y\"; char *a2 = \"p\" \"q\";", "I2.c"),
 ]
+# pairs that are always scheduled together (by file name): each exercises one kind of potentially shared state from both sides
+FIXED_PAIRS = [("I.c", "I2.c"), ("first.c", "second.c"), ("second.c", "third.c"), ("one.c", "two.c"), ("en.c", "td.c"), ("p.c", "q.c"),
+               ("A.c", "B.c"), ("H.c", "C.c"), ("E.c", "kr.c"), ("J.c", "K.c")]
 
 
 # ------------------------------------------------------------------ results
@@ -340,6 +344,13 @@ def run_shard(spec):
         for i in range(spec["n"]):
             k = rnd.choice([2, 2, 3, 4]) if mode == "tok-rand" else 2
             progs = rnd.sample(LONG, k)
+            if i < 2 * len(FIXED_PAIRS):
+                fa, fb = FIXED_PAIRS[(i // 2 + spec["rseed"]) % len(FIXED_PAIRS)]
+                by_name = {}
+                for t_, f_ in LONG:
+                    by_name.setdefault(f_, (t_, f_))
+                progs = [by_name[fa], by_name[fb]]
+                k = 2
             L = 400 if mode == "tok-rand" else 6000
             burst = rnd.choice([1, 1, 2, 5, 20])
             sch = []
